@@ -649,3 +649,108 @@ Qed.
 Example typiclust_unbound_refuted :
   typiclust 3 [1; 2]%nat [0; 0; 0]%nat (fun c j => 5) 1 (-1) 1 [0; 0] [1; 1; 1; 1] = None.
 Proof. vm_compute. reflexivity. Qed.
+
+(* =====================================================================================
+   sampling loops (Badge, Falcun): zeroed earlier picks + fallback to ones
+   ===================================================================================== *)
+Lemma zero_at_length l idx : length (zero_at l idx) = length l.
+Proof. unfold zero_at. rewrite map_length, combine_length, seq_length. lia. Qed.
+
+Lemma nth_map_default {A B} (f : A -> B) (l : list A) : forall j d d', (j < length l)%nat -> nth j (map f l) d' = f (nth j l d).
+Proof. induction l as [|x t IH]; intros [|j] d d' H; cbn in *; try lia; [reflexivity|apply IH; lia]. Qed.
+
+Lemma zero_at_nth l idx j : (j < length l)%nat ->
+  nth j (zero_at l idx) 0 = if memb j idx then 0 else nth j l 0.
+Proof.
+  intros Hj. unfold zero_at.
+  rewrite (nth_map_default _ _ j (O, 0)) by (rewrite combine_length, seq_length; lia).
+  rewrite combine_nth by (rewrite seq_length; reflexivity).
+  rewrite seq_nth by exact Hj. cbn [fst snd Nat.add]. reflexivity.
+Qed.
+
+Lemma sweights_length raw prev : length (sweights raw prev) = length raw.
+Proof.
+  unfold sweights. destruct (forallb _ _); rewrite zero_at_length; [apply repeat_length|reflexivity].
+Qed.
+
+Lemma sweights_prev_zero raw prev j : (j < length raw)%nat -> memb j prev = true -> nth j (sweights raw prev) 0 = 0.
+Proof.
+  intros Hj Hm. unfold sweights. destruct (forallb _ _).
+  - rewrite zero_at_nth by (rewrite repeat_length; exact Hj). rewrite Hm. reflexivity.
+  - rewrite zero_at_nth by exact Hj. rewrite Hm. reflexivity.
+Qed.
+
+Lemma nth_repeat_lt {A} (x d : A) n : forall j, (j < n)%nat -> nth j (repeat x n) d = x.
+Proof. induction n as [|n IH]; intros [|j] H; cbn; try lia; [reflexivity|apply IH; lia]. Qed.
+
+(* something can always be drawn while a candidate is left: choice never faces an all-zero vector *)
+Theorem sweights_available raw prev j :
+  Forall (fun v => 0 <= v) raw -> (j < length raw)%nat -> memb j prev = false ->
+  exists i, (i < length raw)%nat /\ 0 < nth i (sweights raw prev) 0.
+Proof.
+  intros Hnn Hj Hm. unfold sweights. destruct (forallb (Z.eqb 0) (zero_at raw prev)) eqn:E.
+  - exists j. split; [exact Hj|]. rewrite zero_at_nth by (rewrite repeat_length; exact Hj). rewrite Hm.
+    rewrite nth_repeat_lt by exact Hj. lia.
+  - assert (H : exists i, (i < length (zero_at raw prev))%nat /\ nth i (zero_at raw prev) 0 <> 0).
+    { generalize (zero_at raw prev) E. clear. intros l. induction l as [|x t IH]; intros E; [discriminate|].
+      cbn [forallb] in E. destruct (0 =? x) eqn:Ex.
+      - cbn in E. destruct (IH E) as [i [Hi Hv]]. exists (S i). split; [cbn; lia|exact Hv].
+      - exists O. split; [cbn; lia|]. cbn. apply Z.eqb_neq in Ex. lia. }
+    destruct H as [i [Hi Hv]]. rewrite zero_at_length in Hi. exists i. split; [exact Hi|].
+    rewrite zero_at_nth in * by exact Hi. destruct (memb i prev); [congruence|].
+    rewrite Forall_forall in Hnn. assert (0 <= nth i raw 0) by (apply Hnn, nth_In; exact Hi). lia.
+Qed.
+
+Lemma srow_length raw prev : length (srow raw prev) = length raw.
+Proof. unfold srow. rewrite map_length, combine_length, seq_length, sweights_length. lia. Qed.
+
+Lemma srow_nth raw prev j : (j < length raw)%nat ->
+  nth j (srow raw prev) None = if memb j prev then None else Some (nth j (sweights raw prev) 0).
+Proof.
+  intros Hj. unfold srow.
+  rewrite (nth_map_default _ _ j (O, 0)) by (rewrite combine_length, seq_length, sweights_length; lia).
+  rewrite combine_nth by (rewrite seq_length, sweights_length; reflexivity).
+  rewrite seq_nth by exact Hj. cbn [fst snd Nat.add]. reflexivity.
+Qed.
+
+Lemma memb_seq j m : memb j (seq 0 m) = (j <? m)%nat.
+Proof.
+  destruct (j <? m)%nat eqn:E.
+  - apply memb_In. apply in_seq. apply Nat.ltb_lt in E. lia.
+  - apply memb_false. intros H. apply in_seq in H. apply Nat.ltb_ge in E. lia.
+Qed.
+
+Theorem sampling_trace_accepted m : forall raws picks prev,
+  Forall (fun r => length r = m) raws ->
+  contract_ok raws picks prev = true ->
+  psteps_ok SelSampling (seq 0 m) prev m (sampling_trace raws picks prev) = true.
+Proof.
+  induction raws as [|r rt IH]; intros picks prev Hlen Hc; [destruct picks; reflexivity|].
+  destruct picks as [|p pt]; [cbn in Hc; discriminate|].
+  inversion Hlen as [|? ? Hr Hrt]; subst.
+  cbn [contract_ok] in Hc. apply andb_prop in Hc. destruct Hc as [Hp Hc].
+  cbn [sampling_trace psteps_ok fst]. apply andb_true_intro. split; [|apply IH; assumption].
+  apply Z.ltb_lt in Hp.
+  assert (Hpl : (p < length r)%nat).
+  { destruct (Nat.lt_ge_cases p (length r)) as [L|G]; [exact L|].
+    rewrite nth_overflow in Hp by (rewrite sweights_length; exact G). lia. }
+  assert (Hpp : memb p prev = false).
+  { destruct (memb p prev) eqn:E; [|reflexivity]. rewrite (sweights_prev_zero r prev p Hpl E) in Hp. lia. }
+  unfold pstep_ok. rewrite srow_length, Nat.eqb_refl, (proj2 (Nat.ltb_lt _ _) Hpl). cbn [andb].
+  rewrite srow_nth by exact Hpl. rewrite Hpp.
+  rewrite nan_pattern_intro; [cbn [andb]; apply Z.ltb_lt; exact Hp|].
+  intros j Hj. cbn [Nat.add]. rewrite srow_length in Hj. rewrite srow_nth by exact Hj.
+  rewrite memb_seq, (proj2 (Nat.ltb_lt _ _) Hj). cbn [negb orb].
+  destruct (memb j prev); reflexivity.
+Qed.
+
+(* user level: distinct candidates, each drawn with positive mass *)
+Theorem sampling_valid_batch m raws picks :
+  Forall (fun r => length r = m) raws -> contract_ok raws picks [] = true ->
+  NoDup (map fst (sampling_trace raws picks [])) /\
+  Forall (fun p => (p < m)%nat) (map fst (sampling_trace raws picks [])).
+Proof.
+  intros H1 H2. pose proof (sampling_trace_accepted m raws picks [] H1 H2) as H.
+  destruct (steps_ok_picks SelSampling (seq 0 m) m _ [] H) as [HF HN]. split; [exact HN|].
+  rewrite Forall_forall in *. intros p Hp. destruct (HF p Hp) as [Hin _]. apply in_seq in Hin. lia.
+Qed.
